@@ -1403,6 +1403,10 @@ class Exec(object):
                 return self.models[f.qual](self, args, kwargs, line)
             c = self.registry.get(f.qual)
             if c is not None and f.qual not in self.force_inline and f.qual not in self.no_contract:
+                if _all_concrete(args) and _all_concrete(list(kwargs.values())) and type(c).__name__ == "Contract" and f.qual.startswith(("ecdsa.der.", "ecdsa.util.", "ecdsa.numbertheory.")):
+                    # a call of a pure codec / number-theory function on concrete immutable arguments (module constants such as
+                    # encode_oid(*oid_ecPublicKey)): execute the real body on them - exact, where the contract would only give an abstract value
+                    return self.inline(f, args, kwargs, line)
                 return self.apply_contract(c, f, args, kwargs, line)
             return self.inline(f, args, kwargs, line)
         if f is None:
@@ -1857,6 +1861,10 @@ class ZipView(object):
 class DictView(object):
     def __init__(self, obj):
         self.obj = obj
+
+
+def _all_concrete(vs):
+    return all((isinstance(v, (int, bytes, str)) or v is None or (isinstance(v, tuple) and _all_concrete(v))) for v in vs)
 
 
 class OctetList(object):
